@@ -1041,20 +1041,30 @@ fn table_to_render_tree<'a, T: Write>(
 ) -> TreeMapResult<'a, HtmlContext, RenderInput, RenderNode> {
     pending(input, move |_, rowset| {
         let mut rows = vec![];
+        // Anything else with content (in practice a <caption>) is kept as a
+        // block above the table.
+        let mut captions = vec![];
         for bodynode in rowset {
             if let RenderNodeInfo::TableBody(body) = bodynode.info {
                 rows.extend(body);
-            } else {
-                html_trace!("Found in table: {:?}", bodynode.info);
+            } else if !bodynode.is_shallow_empty() {
+                captions.push(bodynode);
             }
         }
-        if rows.is_empty() {
+        let table = if rows.is_empty() {
             None
         } else {
             Some(RenderNode::new_styled(
                 RenderNodeInfo::Table(RenderTable::new(rows)),
                 computed,
             ))
+        };
+        if captions.is_empty() {
+            table
+        } else {
+            let mut nodes = vec![RenderNode::new(RenderNodeInfo::Block(captions))];
+            nodes.extend(table);
+            Some(RenderNode::new(RenderNodeInfo::Container(nodes)))
         }
     })
 }
